@@ -1,0 +1,16 @@
+//go:build verif
+// +build verif
+
+package core
+
+// VerifC14SetPlanPrinter replaces the sink that printAction writes the run plan to (the package
+// variable planPrintFunc, which exists for this purpose) and returns the previous sink.
+// With Pipeline.DumpPlan set, Run's own call of prepareRunPlan then reports the very plan it executes.
+func VerifC14SetPlanPrinter(f func(args ...interface{})) func(args ...interface{}) {
+	old := planPrintFunc
+	planPrintFunc = f
+	return old
+}
+
+// VerifC14ConfigHibernationDistance is the facts key read by Pipeline.Initialize.
+const VerifC14ConfigHibernationDistance = ConfigPipelineHibernationDistance
